@@ -16,7 +16,6 @@ Open Scope N_scope.
 Open Scope list_scope.
 
 Local Arguments uri_of : simpl never.
-Local Arguments url_string_eqb : simpl never.
 Local Arguments trust_domain : simpl never.
 
 (* ------------------------------------------------------------------ splitting and decoding *)
@@ -415,8 +414,7 @@ Qed.
 Definition cert_identity (e : ca_env) (u : url) (id : cert_id) : cert_id :=
   match id with
   | IdAgent host ap dc agent =>
-      if (host =? trust_domain e)%string then id
-      else if url_string_eqb (uri_of id) u then IdAgent (trust_domain e) "default" dc agent else id
+      if (host =? trust_domain e)%string then id else IdAgent (trust_domain e) "default" dc agent
   | _ => id
   end.
 
@@ -435,8 +433,7 @@ Definition scope_of (id : cert_id) : scope :=
 Lemma scope_cert_identity e u id : scope_of (cert_identity e u id) = scope_of id.
 Proof.
   destruct id; try reflexivity. cbn [cert_identity].
-  destruct (host =? trust_domain e)%string; [reflexivity|].
-  destruct (url_string_eqb _ u); reflexivity.
+  destruct (host =? trust_domain e)%string; reflexivity.
 Qed.
 
 (* C12_no_confusion *)
@@ -449,13 +446,12 @@ Theorem no_confusion e az c s crt s' :
       id2 = cert_identity e u id /\ scope_of id2 = scope_of id /\ granted az id2.
 Proof.
   intros H Hwf.
-  destruct (issue_sound _ _ _ _ _ _ H) as (u & id & Hu & _ & Hp & Hv & Hg & Hn & Ha & _).
+  destruct (issue_sound _ _ _ _ _ _ H) as (u & id & Hu & _ & Hp & Hv & Hg & _ & Hn & Ha & _).
   assert (Hwu : url_wf u) by (apply Hwf; rewrite Hu; left; reflexivity).
   assert (Hfin : forall id2, id2 = cert_identity e u id -> id2 = cert_identity e u id /\ scope_of id2 = scope_of id /\ granted az id2).
   { intros id2 ->. split; [reflexivity|]. split; [apply scope_cert_identity|].
     destruct id; try exact Hg. cbn [cert_identity].
-    destruct (host =? trust_domain e)%string; [exact Hg|].
-    destruct (url_string_eqb _ u); exact Hg. }
+    destruct (host =? trust_domain e)%string; exact Hg. }
   destruct (is_agent id) eqn:Ag.
   - destruct id; try discriminate. specialize (Ha eq_refl). cbn [agent_cert_uri coerce] in Ha.
     destruct (host =? trust_domain e)%string eqn:Eh.
@@ -463,17 +459,12 @@ Proof.
       split; [exact Hu|]. split; [exact Hp|]. split; [exact Hg|]. split; [exact Ha|].
       intros id2 H0. apply Hfin. unfold cert_identity. rewrite Eh.
       eapply reading_certificate; eassumption.
-    + destruct (url_string_eqb (uri_of (IdAgent host ap dc agent)) u) eqn:Eu.
-      * exists u, (IdAgent host ap dc agent), (uri_of (IdAgent (trust_domain e) ap dc agent)).
-        split; [exact Hu|]. split; [exact Hp|]. split; [exact Hg|]. split; [exact Ha|].
-        intros id2 H0. apply Hfin. unfold cert_identity. rewrite Eh, Eu.
-        apply (reading_reprinted_agent _ ap).
-        unfold uri_of, fresh_url in H0. rewrite reparse_fresh in H0 by discriminate. exact H0.
-      * exists u, (IdAgent host ap dc agent), u.
-        split; [exact Hu|]. split; [exact Hp|]. split; [exact Hg|]. split; [exact Ha|].
-        intros id2 H0. apply Hfin. unfold cert_identity. rewrite Eh, Eu.
-        eapply reading_certificate; eassumption.
-  - destruct (Hn eq_refl) as (_ & _ & Hc).
+    + exists u, (IdAgent host ap dc agent), (uri_of (IdAgent (trust_domain e) ap dc agent)).
+      split; [exact Hu|]. split; [exact Hp|]. split; [exact Hg|]. split; [exact Ha|].
+      intros id2 H0. apply Hfin. unfold cert_identity. rewrite Eh.
+      apply (reading_reprinted_agent _ ap).
+      unfold uri_of, fresh_url in H0. rewrite reparse_fresh in H0 by discriminate. exact H0.
+  - destruct (Hn eq_refl) as (_ & Hc).
     exists u, id, u.
     split; [exact Hu|]. split; [exact Hp|]. split; [exact Hg|]. split; [exact Hc|].
     intros id2 H0. apply Hfin.
